@@ -24,7 +24,14 @@ RULE = ('one generated dependency graph per example (3-25 formula cells, <= 3 sh
 ASSUMPTIONS = ['formulas are total numeric expressions (+, *, SUM, IF, INDEX, MAX, SUMIF over two areas of one shape); areas only cover cells earlier in the layout order',
                'blank cells inside a referenced area need not be members of the slice class (closure is asserted for non-blank cells)']
 
-TITLES = ['S', 'T', 'U']
+DEFAULT_TITLES = ['S', 'T', 'U']
+TITLES = list(DEFAULT_TITLES)    # the titles of the case at hand (set from spec['titles'] by run_spec / the generator)
+TITLE_SETS = [DEFAULT_TITLES, DEFAULT_TITLES, ['Sum', '2', '1'], ['My Data', 'T', "it's"], ['0', 'Data', '10']]
+
+
+def pfx(t):
+    """sheet prefix of a reference: quoted unless the title is a plain name"""
+    return (t if t.isidentifier() else "'" + t.replace("'", "''") + "'") + '!'
 L = wbk.get_column_letter
 DATA_COL = 6   # column F holds constants only: the target of whole-column references
 
@@ -34,12 +41,12 @@ def order_key(node):
 
 
 def addr(n, from_sheet):
-    p = '' if n['s'] == from_sheet else TITLES[n['s']] + '!'
+    p = '' if n['s'] == from_sheet else pfx(TITLES[n['s']])
     return f"{p}{L(n['c'])}{n['r']}"
 
 
 def area_text(a, from_sheet):
-    p = '' if a['s'] == from_sheet else TITLES[a['s']] + '!'
+    p = '' if a['s'] == from_sheet else pfx(TITLES[a['s']])
     if a.get('col'):
         return f"{p}{L(a['c0'])}:{L(a['c0'])}"
     return f"{p}{L(a['c0'])}{a['r0']}:{L(a['c1'])}{a['r1']}"
@@ -181,6 +188,7 @@ def ref_values(spec, coord_index, maxrow):
 
 
 def run_spec(spec, rec=None):
+    TITLES[:] = spec.get('titles', DEFAULT_TITLES)
     nodes = spec['nodes']
     coord_index, maxrow, edges = analyse(spec)
     cyclic = bool(spec.get('cyclic'))
@@ -280,6 +288,27 @@ def run_spec(spec, rec=None):
                 if not oke and ve[0] != 'timeout':
                     fail('slice-equals-whole-file', 'value:slice', F.show_ref(exp), wbk.show_outcome(ve), {'entry': list(entry), 'cell': f"{TITLES[m['s']]}!{wbk.a1(m['c'], m['r'])}"})
                     return fails
+        if not cyclic and not spec.get('entries'):
+            # blank cells are nodes of the graph like any other: a blank cell that an area mentions (or one beyond the used range) is a legal entry,
+            # its slice is closed and its value is the blank cell of the whole-file class
+            filled = {(n['s'], n['c'], n['r']) for n in nodes if n.get('f') or n.get('v') is not None}
+            mentioned = sorted({tuple(c) for i in formula_nodes for c in deps_of(nodes[i], nodes, coord_index, maxrow)[1] if tuple(c) not in filled})
+            far = [(s_, max([c for (s2, c, r) in filled if s2 == s_] or [1]) + 3, max([r for (s2, c, r) in filled if s2 == s_] or [1]) + 2) for s_ in range(spec['nsheets'])]
+            for bi, (s_, c_, r_) in enumerate(mentioned[:3] + far[:2]):
+                entry = (TITLES[s_], L(c_), str(r_)) if bi % 2 else (s_, c_ - 1, r_ - 1)
+                o = tr(entry, 0)
+                if rec:
+                    rec.case({'spec': spec, 'blank-entry': [s_, c_, r_]}, True, ['acyclic', 'entry:blank-cell', 'blank:' + ('mentioned' if bi < len(mentioned[:3]) else 'beyond-used-range')],
+                             sample={'workbook': model, 'entry': list(entry)})
+                if o[0] == 'timeout':
+                    continue
+                if o[0] != 'value':
+                    fail('blank-entry-translates', 'blank-entry:' + o[1], 'a class', wbk.show_outcome(o), {'entry': list(entry)})
+                    return fails
+                ve = wbk.outcome(lambda: o[1].executor().get_cell(wbk.Cell(s_, c_ - 1, r_ - 1)).value)
+                if not (ve[0] == 'value' and wbk.is_blank(ve[1])):
+                    fail('slice-equals-whole-file', 'blank-entry:value', {'$blank': True}, wbk.show_outcome(ve), {'entry': list(entry)})
+                    return fails
         return fails
     finally:
         import os
@@ -301,6 +330,9 @@ def strategy():
     @st.composite
     def spec(draw):
         nsheets = draw(st.integers(1, 3))
+        # digit-only titles that differ from the sheet's own number, titles that must be quoted
+        titles = draw(st.sampled_from(TITLE_SETS))
+        TITLES[:] = titles
         nrows = draw(st.integers(3, 6))
         # the whole layout may sit further right: four formula columns that straddle Z / AA (or ZZ / AAA), the data column beyond
         coff = draw(st.sampled_from([0, 0, 0, 22, 23, 24, 25, 48, 698, 700]))
@@ -370,7 +402,7 @@ def strategy():
                 f = {'k': 'mul', 'a': pick()}
             nodes.append({'s': s, 'c': c, 'r': r, 'f': f})
             placed.append(len(nodes) - 1)
-        out = {'nsheets': nsheets, 'nodes': nodes}
+        out = {'nsheets': nsheets, 'nodes': nodes, 'titles': list(titles)}
         # cyclic variant?
         fnodes = [i for i, n in enumerate(nodes) if n.get('f')]
         if fnodes and draw(st.integers(0, 2)) == 0:
@@ -387,8 +419,8 @@ def strategy():
             target = addr(nu, nv['s'])
             oldidx, oldcoords = deps_of(nv, nodes, None, [6] * nsheets)
             if how == 'range':
-                pfx = '' if nu['s'] == nv['s'] else TITLES[nu['s']] + '!'
-                text = f"={old}+SUM({pfx}{L(nu['c'])}{nu['r']}:{L(nu['c'] + 1)}{nu['r']})"
+                pfx_ = '' if nu['s'] == nv['s'] else pfx(TITLES[nu['s']])
+                text = f"={old}+SUM({pfx_}{L(nu['c'])}{nu['r']}:{L(nu['c'] + 1)}{nu['r']})"
             elif how == 'if-untaken':
                 text = f"=IF(1>0,{old},{target})"
             elif how == 'iferror-guarded':
